@@ -802,6 +802,16 @@ func c16Scale(c *core.Ctx, fc string, sc *impl.Scratch) {
 			list = append(list, job{fmt.Sprintf("slice literal of %d bytes on one line", n), pre + "let payload () = [" + rep("1; ", n) + "1]\n" + post, []string{"func before", "func payload", "func after"}, "long-line"})
 		}
 	}
+	// runs of blank lines inside a function body and between definitions (the tokenizer skips line ends recursively)
+	blanks := []int{1000, 100000, 300000}
+	if c.Thorough() {
+		blanks = append(blanks, 3000000) // the recorded finding
+	}
+	for _, n := range blanks {
+		list = append(list,
+			job{fmt.Sprintf("blank lines: %d inside a function body", n), "package main\n\nlet before () =\n  let a = 1\n" + strings.Repeat("\n", n) + "  a\n\nlet after () =\n  2\n", []string{"func before", "func after"}, "long-line"},
+			job{fmt.Sprintf("blank lines: %d between definitions", n), "package main\n\nlet before () =\n  1\n" + strings.Repeat("\n", n) + "let after () =\n  2\n", []string{"func before", "func after"}, "long-line"})
+	}
 	// fc's passes are linear in the depth for parentheses, pairs, not and slice types, but about CUBIC for nested
 	// slice literals and lambdas (measured on the pinned tree: 1000 deep 1.2 s / 7 s, 2000 deep 8.5 s / 39 s) -
 	// slow, not endless; the depths are chosen so that the unchanged tree needs at most a few seconds, and this
@@ -875,7 +885,10 @@ func c16Scale(c *core.Ctx, fc string, sc *impl.Scratch) {
 				}
 				sig := "C16:" + o.class + ":" + j.class
 				if o.class == "stack-overflow" || o.class == "oom" || o.class == "fatal" {
-					sig = "C16:runtime-fatal:" + j.class + ":" + strings.Fields(j.name)[0]
+					sig = "C16:runtime-fatal:" + j.class + ":" + strings.TrimSuffix(strings.Fields(j.name)[0], ":")
+					if strings.HasPrefix(j.name, "blank lines") {
+						sig = "C16:runtime-fatal:deep-nesting:blank-lines"
+					}
 				}
 				c.Violation(sig, fmt.Sprintf("fc on %s: %s %s", j.name, o.class, o.detail),
 					map[string]any{"kind": "scale", "case": j.name, "expected": "ok (long lines) / ok or rejected (deep nesting)", "observed": o.class + " " + o.detail + " exit=" + fmt.Sprint(r.Exit) + " " + trunc(r.Out(), 800)})
